@@ -14,6 +14,17 @@ def run(chk):
         sutmon.monitor_ping(chk, 2, 2)
     c07.persist_load(chk)
     context_keys_only_in_persist(chk)
+    # the exchange function persists the context in the middle of a check (when the poll interval changes): it
+    # must not have touched the rest of it
+    import domaha
+    E = domaha.explore(chk, 4)
+    o4 = chk.ob('exchange-frame', 'of the in-memory context the exchange changes the poll interval only: the failure counter and the last-contact time are untouched on every path (so the context it persists when the interval changes carries the bookkeeping of the last completed check)')
+    D4 = Decide(chk, E.ex, o4, cross=False)
+    domaha.monitor_frame(E, D4)
+    f4 = D4.done()
+    if f4 and f4[0] == 'violated':
+        o4.key = o4.name
+    chk.absorb(E.ex)
     chk.bounds.update({'history': 'one check / one ping from an arbitrary in-memory context (inductive step: counter, times, interval symbolic at full width)',
                        'apps in result': '0..3'})
     chk.assumptions += [
